@@ -57,6 +57,43 @@ def _layer_classes(p: Program):
     return out
 
 
+def _may_be_value_object(p: Program, f: FuncInfo, recv: ast.expr, vclasses) -> bool:
+    """can the receiver of a method call be an instance of one of the layer's value classes?  A local that is only ever
+    bound to something else (a list taken from an annotation, a string, a record) cannot."""
+    from .loader import ClassInfo
+
+    if not isinstance(recv, ast.Name):
+        return not isinstance(recv, (ast.Constant, ast.JoinedStr, ast.List, ast.Dict, ast.Tuple))
+    binds = []
+    for n in ast.walk(f.node):
+        if isinstance(n, ast.Assign) and any(isinstance(x, ast.Name) and x.id == recv.id for t in n.targets for x in ast.walk(t)):
+            binds.append(n.value)
+        elif isinstance(n, (ast.For, ast.comprehension)) and any(isinstance(x, ast.Name) and x.id == recv.id for x in ast.walk(n.target)):
+            binds.append(n.iter)
+        elif isinstance(n, ast.withitem) and n.optional_vars is not None and any(isinstance(x, ast.Name) and x.id == recv.id for x in ast.walk(n.optional_vars)):
+            binds.append(n.context_expr)
+    if not binds:
+        return True  # a parameter, a global
+    for b in binds:
+        for c in ast.walk(b):
+            if isinstance(c, ast.Call):
+                g = None
+                try:
+                    if isinstance(c.func, ast.Name):
+                        g = p.resolve_expr(f.module, c.func)
+                    elif isinstance(c.func, ast.Attribute) and isinstance(c.func.value, ast.Name) and c.func.value.id in ("self", "cls") and f.owner is not None:
+                        _, g = p.class_attr_def(f.owner, c.func.attr)
+                    elif isinstance(c.func, ast.Attribute) and isinstance(c.func.value, ast.Name):
+                        g = p.resolve_expr(f.module, c.func.value)
+                except Exception:
+                    g = None
+                if isinstance(g, ClassInfo) and g in vclasses:
+                    return True
+                if isinstance(g, FuncInfo) and g.module.name in ASSEMBLY_LAYER:
+                    return True  # a helper of the layer: may hand out value objects
+    return False
+
+
 def reach(p: Program, fi: FuncInfo, depth: int = 4) -> List[FuncInfo]:
     """fi and what it runs inside the assembly layer: self./cls. calls, calls of module-level names (also through
     `module.name`), functions handed on as values, and methods of the layer's value objects called on an instance
@@ -75,6 +112,7 @@ def reach(p: Program, fi: FuncInfo, depth: int = 4) -> List[FuncInfo]:
             continue
         nxt = []
         params = {a.arg for a in f.node.args.posonlyargs + f.node.args.args}
+        call_funcs = {id(n.func) for n in ast.walk(f.node) if isinstance(n, ast.Call)}
         for n in ast.walk(f.node):
             if isinstance(n, ast.Call):
                 fn = n.func
@@ -90,10 +128,22 @@ def reach(p: Program, fi: FuncInfo, depth: int = 4) -> List[FuncInfo]:
                     if isinstance(g, FuncInfo):
                         nxt.append(g)
                 elif isinstance(fn, ast.Attribute):
-                    for ci in vclasses:
-                        raw = ci.attrs.get(fn.attr)
+                    exact = None
+                    if isinstance(fn.value, ast.Name):
+                        try:
+                            exact = p.resolve_expr(f.module, fn.value) if fn.value.id not in params else None
+                        except Exception:
+                            exact = None
+                    if isinstance(exact, ClassInfo):
+                        # Class.method(...): that class's method, nothing else
+                        raw = exact.attrs.get(fn.attr) if exact in vclasses else None
                         if isinstance(raw, FuncInfo):
                             nxt.append(raw)
+                    elif _may_be_value_object(p, f, fn.value, vclasses):
+                        for ci in vclasses:
+                            raw = ci.attrs.get(fn.attr)
+                            if isinstance(raw, FuncInfo):
+                                nxt.append(raw)
             if isinstance(n, ast.Name) and isinstance(n.ctx, ast.Load) and n.id not in params:
                 try:
                     g = p.resolve_expr(f.module, n)
@@ -111,6 +161,13 @@ def reach(p: Program, fi: FuncInfo, depth: int = 4) -> List[FuncInfo]:
                 _, g = p.class_attr_def(f.owner, n.attr)
                 if isinstance(g, FuncInfo):
                     nxt.append(g)
+            elif isinstance(n, ast.Attribute) and isinstance(n.ctx, ast.Load) and not n.attr.startswith("__") and id(n) not in call_funcs \
+                    and _may_be_value_object(p, f, n.value, vclasses):
+                # a method of a value object of the layer handed on as a value (table.lookup)
+                for ci in vclasses:
+                    raw = ci.attrs.get(n.attr)
+                    if isinstance(raw, FuncInfo):
+                        nxt.append(raw)
         for g in nxt:
             if g not in out and g.module.name in ASSEMBLY_LAYER:
                 out.append(g)
@@ -282,9 +339,12 @@ def source_annotator(p: Program) -> FuncInfo:
             continue
         funcs = list(m.functions.values()) + [v for ci in m.classes.values() for v in ci.attrs.values() if isinstance(v, FuncInfo) and v.module is m]
         for f in funcs:
-            makes = any(isinstance(n, ast.Call) and ast.unparse(n.func).endswith("SeqFeature")
-                        and any(k.arg == "type" and isinstance(k.value, ast.Constant) and k.value.value == "source" for k in n.keywords)
-                        for n in ast.walk(f.node))
+            def makes_source(g):
+                return any(isinstance(n, ast.Call) and ast.unparse(n.func).endswith("SeqFeature")
+                           and any(k.arg == "type" and isinstance(k.value, ast.Constant) and k.value.value == "source" for k in n.keywords)
+                           for n in ast.walk(g.node))
+
+            makes = makes_source(f) or any(makes_source(g) for g in _callees(p, f))  # ... or a factory it calls
             appends = any(isinstance(n, ast.Call) and isinstance(n.func, ast.Attribute) and n.func.attr in ("append", "insert", "extend")
                           and isinstance(n.func.value, ast.Attribute) and n.func.value.attr == "features" for n in ast.walk(f.node))
             if makes and appends and f not in hits:
@@ -315,15 +375,28 @@ def citation_functions(p: Program) -> Tuple[FuncInfo, FuncInfo]:
         parses = any(isinstance(n, ast.Call) and ((isinstance(n.func, ast.Attribute) and n.func.attr in ("match", "fullmatch", "search"))
                                                   or (isinstance(n.func, ast.Name) and n.func.id == "int")) for n in nodes) or any(
             isinstance(n, ast.Attribute) and n.attr in ("match", "fullmatch") and isinstance(n.ctx, ast.Load) for n in nodes)
+        def is_class_name(g, e):
+            from .loader import ClassInfo
+            try:
+                return isinstance(e, ast.Name) and isinstance(p.resolve_expr(g.module, e), ClassInfo)
+            except Exception:
+                return False
+
         numbers = any(isinstance(n, ast.Call) and isinstance(n.func, ast.Attribute) and (
-            n.func.attr == "index" or (n.func.attr == "setdefault" and n.args and isinstance(n.args[0], ast.Constant) and n.args[0].value == "references"))
-            for n in nodes)
-        return stores, cites, parses, numbers
+            (n.func.attr in ("index", "append") and not is_class_name(g, n.func.value) and not (isinstance(n.func.value, ast.Name) and n.func.value.id in ("cls", "self"))))
+            for g in T for n in ast.walk(g.node))
+        # the list created on demand: a weaker sign (a constructor shared by both halves may do it under a flag)
+        creates = any(isinstance(n, ast.Call) and isinstance(n.func, ast.Attribute) and n.func.attr == "setdefault" and n.args
+                      and isinstance(n.args[0], ast.Constant) and n.args[0].value == "references" for g in T for n in ast.walk(g.node))
+        return stores, cites, parses, numbers, creates
 
     lf = [f for f in layer_functions(p) if not (f.owner is not None and f.owner in _layer_classes(p) and f.owner.name != "AssemblyManager" and f.name != "__call__")]
     table = {id(f): feats(f) for f in lf}
     d_entries = [f for f in lf if table[id(f)][0] and table[id(f)][1] and table[id(f)][2] and not table[id(f)][3]]
     r_entries = [f for f in lf if table[id(f)][0] and table[id(f)][1] and table[id(f)][3] and not table[id(f)][2]]
+    if not r_entries:
+        r_entries = [f for f in lf if table[id(f)][0] and table[id(f)][1] and table[id(f)][4] and not table[id(f)][2]]
+        d_entries = [f for f in d_entries if not table[id(f)][4]]
 
     def innermost(entries):
         return [f for f in entries if not any(g is not f and g in reach(p, f) for g in entries)]
@@ -336,12 +409,41 @@ def citation_functions(p: Program) -> Tuple[FuncInfo, FuncInfo]:
     return p._citation_functions
 
 
+def citation_private_helpers(p: Program) -> set:
+    """ids of the functions only the citation rewrite pair runs (a shared slot-storing helper, a generator of citation
+    slots, methods of a citation value object): reached from the pair and from nothing else in the layer"""
+    cached = getattr(p, "_citation_private_helpers", None)
+    if cached is not None:
+        return cached
+    deref, ref = citation_functions(p)
+    inside = [g for g in reach(p, deref) + reach(p, ref)]
+    pair = {id(deref), id(ref)}
+    outside = set()
+    for f in layer_functions(p):
+        if any(f is g for g in inside):
+            continue
+        # what f runs without entering the pair
+        seen, todo = {id(f)}, [f]
+        while todo:
+            h = todo.pop()
+            for g in reach(p, h, 1):
+                if id(g) in pair or id(g) in seen:
+                    continue
+                seen.add(id(g))
+                todo.append(g)
+        outside |= seen
+    out = {id(g) for g in inside if id(g) not in outside and id(g) not in pair}
+    p._citation_private_helpers = out
+    return out
+
+
 def citation_regex(p: Program, deref: FuncInfo) -> Optional[str]:
     """the literal pattern of the compiled regex the dereference function matches citations with"""
     names = set()
     nodes = list(ast.walk(deref.node))
-    for g in _callees(p, deref):
-        nodes += list(ast.walk(g.node))
+    for g in reach(p, deref):
+        if g is not deref:
+            nodes += list(ast.walk(g.node))
     local = {}
     for n in nodes:
         if isinstance(n, ast.Assign) and len(n.targets) == 1 and isinstance(n.targets[0], ast.Name):
@@ -357,13 +459,14 @@ def citation_regex(p: Program, deref: FuncInfo) -> Optional[str]:
             elif isinstance(v, ast.Name):
                 names.add(v.id)
     for nm in sorted(names):
-        raw = None
-        if deref.owner is not None:
-            _, raw = p.class_attr_def(deref.owner, nm)
-        if raw is None:
-            raw = deref.module.assigns.get(nm)
-        if isinstance(raw, ast.Call) and raw.args and isinstance(raw.args[0], ast.Constant) and isinstance(raw.args[0].value, str):
-            return raw.args[0].value
+        raws = []
+        for g in reach(p, deref):
+            if g.owner is not None:
+                raws.append(p.class_attr_def(g.owner, nm)[1])
+            raws.append(g.module.assigns.get(nm))
+        for raw in raws:
+            if isinstance(raw, ast.Call) and raw.args and isinstance(raw.args[0], ast.Constant) and isinstance(raw.args[0].value, str):
+                return raw.args[0].value
     return None
 
 
@@ -378,7 +481,20 @@ def _tree_mentions(p: Program, fi: FuncInfo, pred, depth: int = 3, seen=None) ->
     seen.add(id(fi))
     if any(pred(n) for n in ast.walk(fi.node)):
         return True
-    return depth > 0 and any(_tree_mentions(p, g, pred, depth - 1, seen) for g in _callees(p, fi))
+    # through a module-level / class-level constant the function names (a table of annotations, a compiled pattern)
+    for n in ast.walk(fi.node):
+        raw = None
+        if isinstance(n, ast.Name) and isinstance(n.ctx, ast.Load):
+            raw = fi.module.assigns.get(n.id)
+        elif isinstance(n, ast.Attribute) and isinstance(n.value, ast.Name) and n.value.id in ("self", "cls") and fi.owner is not None:
+            raw = fi.owner.attrs.get(n.attr)
+        if isinstance(raw, ast.AST) and any(pred(x) for x in ast.walk(raw)):
+            return True
+    if depth > 0 and any(_tree_mentions(p, g, pred, depth - 1, seen) for g in _callees(p, fi)):
+        return True
+    # ... or in a method of a value object of the layer it runs (an error built by _Clash(...).as_error())
+    return depth > 0 and any(any(pred(n) for n in ast.walk(g.node)) for g in reach(p, fi, 2) if g is not fi and g.owner is not None and g.owner in _layer_classes(p)
+                             and g.owner.name != "AssemblyManager")
 
 
 def manager_phases(p: Program) -> dict:
@@ -450,8 +566,13 @@ def regex_getter(p: Program) -> FuncInfo:
         raise AnalysisError("anchor vanished: module moclo.core._structured")
     cands = []
     funcs = list(m.functions.values()) + [v for ci in m.classes.values() for v in ci.attrs.values() if isinstance(v, FuncInfo)]
+    # ... or a registry function next to DNARegex itself (structure_regex(cls))
+    rx = p.modules.get("moclo.regex")
+    if rx is not None:
+        funcs += list(rx.functions.values())
     for f in funcs:
-        if any(isinstance(n, ast.Call) and isinstance(n.func, ast.Name) and n.func.id == "DNARegex" for n in ast.walk(f.node)):
+        if any(isinstance(n, ast.Call) and isinstance(n.func, ast.Name) and n.func.id == "DNARegex" and n.args and isinstance(n.args[0], ast.Call)
+               and isinstance(n.args[0].func, ast.Attribute) and n.args[0].func.attr == "structure" for n in ast.walk(f.node)):
             cands.append(f)
     if len(cands) != 1:
         raise AnalysisError("anchor vanished: the function compiling the structure pattern (DNARegex(cls.structure())) is not recognised: %s"
